@@ -55,23 +55,23 @@ Section Spec.
   Definition sp_delete (opts : list del_opt) (S : sstore) : sstore :=
     fun k i => if named opts k i then None else S k i.
 
-  (* entries n+1..n_end of kind k become copies of entry n, if there is one *)
-  Definition sp_copies (S : sstore) (k : kind) (n n_end : Z) : sstore :=
-    match S k n with
-    | Some c => fun k' i => if kind_eqb k' k && ((n <? i) && (i <=? n_end)) then Some c else S k' i
-    | None => S
-    end.
-
-  Definition sp_save1 (u : use_req) (res : kind -> C) (S : sstore) (s : kind * Z * Z) : sstore :=
-    let k := fst (fst s) in
-    if mem_kind k savable_kinds then
-      if used_kind u k then sp_define S k (snd (fst s)) (snd s) (res k)
-      else sp_copies S k (snd (fst s)) (snd s)
-    else S.
+  (* saver(): per savable kind whose SAVE flag is set, the result is written under n and n+1..n_end when the
+     kind took part in the calculation; otherwise n+1..n_end become copies of an existing entry n *)
+  Definition sp_saver (u : use_req) (res : kind -> C) (Sv : save_struct) (S : sstore) : sstore :=
+    fun k i =>
+      if mem_kind k savable_kinds && sa_flag (Sv k) then
+        if used_kind u k then
+          if in_def_range (sa_n (Sv k)) (sa_end (Sv k)) i then Some (res k) else S k i
+        else
+          match S k (sa_n (Sv k)) with
+          | Some c => if (sa_n (Sv k) <? i) && (i <=? sa_end (Sv k)) then Some c else S k i
+          | None => S k i
+          end
+      else S k i.
 
   Definition sp_react_core (tag cell : Z) (u : use_req) (sv : save_req) (S : sstore) : option sstore :=
     if use_missing u S then None
-    else Some (fold_left (sp_save1 u (react tag cell (used_of u S))) sv S).
+    else Some (sp_saver u (react tag cell (used_of u S)) (save_struct_of sv) S).
 
   Definition sp_react (tag : Z) (u : use_req) (sv : save_req) (S : sstore) : option sstore :=
     if reacts u then sp_react_core tag (-1) u sv S else Some S.
@@ -248,33 +248,28 @@ Section Spec.
       destruct (i <=? n_end); reflexivity.
   Qed.
 
-  Lemma look_range_copies (st : store) k n n_end :
-      look_of (supd st k (rxn_copies (st k) n n_end)) = sp_copies (look_of st) k n n_end.
+  Lemma look_saver u res Sv (st : store) :
+      look_of (saver u res Sv st) = sp_saver u res Sv (look_of st).
   Proof.
-    rewrite look_supd. apply functional_extensionality. intro k'. apply functional_extensionality. intro i.
-    unfold sp_copies.
-    destruct (kind_eqb k' k) eqn:E.
-    - apply kind_eqb_eq in E. subst k'. rewrite mlook_range_copies.
-      unfold Store.look_of, mlook. destruct (zfind n (st k)); simpl; auto.
-      rewrite kind_eqb_refl. reflexivity.
-    - unfold Store.look_of at 2. destruct (option_map (@e_body C) (zfind n (st k))); auto. rewrite E. reflexivity.
-  Qed.
-
-  Lemma look_save1 u res (st : store) s :
-      look_of (save1 (hand_prims C) u res st s) = sp_save1 u res (look_of st) s.
-  Proof.
-    unfold save1, sp_save1. cbn [p_copies hand_prims].
-    destruct (mem_kind (fst (fst s)) savable_kinds); auto.
-    destruct (used_kind u (fst (fst s))).
-    - apply look_define.
-    - apply look_range_copies.
-  Qed.
-
-  Lemma look_saves u res sv : forall (st : store),
-      look_of (fold_left (save1 (hand_prims C) u res) sv st) = fold_left (sp_save1 u res) sv (look_of st).
-  Proof.
-    induction sv as [|s sv IH]; intro st; simpl; auto.
-    rewrite IH. rewrite look_save1. reflexivity.
+    apply functional_extensionality. intro k. apply functional_extensionality. intro i.
+    unfold sp_saver, saver, saver_map.
+    change (look_of (fun k0 => if mem_kind k0 savable_kinds
+                               then if sa_flag (Sv k0)
+                                    then rxn_copies (if used_kind u k0 then zins (sa_n (Sv k0)) (mkEnt (sa_n (Sv k0)) (res k0)) (st k0) else st k0)
+                                                    (sa_n (Sv k0)) (sa_end (Sv k0))
+                                    else st k0
+                               else st k0) k i)
+      with (mlook (if mem_kind k savable_kinds
+                   then if sa_flag (Sv k)
+                        then rxn_copies (if used_kind u k then zins (sa_n (Sv k)) (mkEnt (sa_n (Sv k)) (res k)) (st k) else st k)
+                                        (sa_n (Sv k)) (sa_end (Sv k))
+                        else st k
+                   else st k) i).
+    destruct (mem_kind k savable_kinds); simpl; [|reflexivity].
+    destruct (sa_flag (Sv k)); simpl; [|reflexivity].
+    destruct (used_kind u k).
+    - rewrite mlook_define. reflexivity.
+    - rewrite mlook_range_copies. reflexivity.
   Qed.
 
   Lemma look_react_core tag cell u sv (st : store) :
@@ -282,7 +277,7 @@ Section Spec.
   Proof.
     unfold do_react_core, sp_react_core.
     destruct (use_missing u (look_of st)); simpl; auto.
-    rewrite look_saves. reflexivity.
+    cbn [p_saver hand_prims]. rewrite look_saver. reflexivity.
   Qed.
 
   Lemma look_react tag u sv (st : store) :
@@ -393,9 +388,8 @@ Arguments sp_react_core {C} react tag cell u sv S.
 Arguments sp_read {C D} modify S r.
 Arguments sp_copy {C} opts S.
 Arguments sp_delete {C} opts S.
-Arguments sp_save1 {C} u res S s.
+Arguments sp_saver {C} u res Sv S.
 Arguments sp_define {C} S k n n_end c.
-Arguments sp_copies {C} S k n n_end.
 Arguments sm_copy1 {C} f t.
 Arguments copy_inner {C} src e l m i.
 Arguments sr_store {C}. Arguments sr_dump {C}. Arguments sr_stopped {C}.
